@@ -2,7 +2,7 @@
 From Coq Require Import List ZArith Reals Lra Lia.
 From Flocq Require Import Core BinarySingleNaN.
 Require Import PP.FloatModel PP.Expr PP.FloatOps PP.FloatFacts PP.RealOps PP.Shapes PP.ErrorBound PP.PolyFacts PP.Model.PwModel
-  PP.Proofs.KernelBounds PP.Gen.Kernels PP.Props.C01.
+  PP.Proofs.KernelBounds PP.Proofs.UlpProofs PP.Gen.Kernels PP.Props.C01.
 Import ListNotations.
 Local Open Scope R_scope.
 
@@ -276,6 +276,92 @@ Proof.
 Qed.
 Theorem C07_roundtrip_exact : forall cs : list R, deriv_coeffs (antider cs) = cs.
 Proof. exact deriv_antider. Qed.
+
+
+(* ---- the round trip derivative . indefinite in binary64 ---- *)
+(* which operations it performs: coefficient 0 comes back untouched, coefficient i >= 1 comes back as (i+1) * (c_i / (i+1)),
+   two correctly rounded operations (statement per degree, on the regenerated kernels of both methods) *)
+Theorem C07_Poly0_roundtrip_lanes : forall c0 : F,
+  evals FOps0 (evals FOps0 [c0] k_Poly0__indefinite) k_Poly1__derivative =
+  [c0].
+Proof. intros. reflexivity. Qed.
+Theorem C07_Poly1_roundtrip_lanes : forall c0 c1 : F,
+  evals FOps0 (evals FOps0 [c0; c1] k_Poly1__indefinite) k_Poly2__derivative =
+  [c0;
+   fmul (of_bits 4611686018427387904) (fdiv c1 (of_bits 4611686018427387904))].
+Proof. intros. reflexivity. Qed.
+Theorem C07_Poly2_roundtrip_lanes : forall c0 c1 c2 : F,
+  evals FOps0 (evals FOps0 [c0; c1; c2] k_Poly2__indefinite) k_Poly3__derivative =
+  [c0;
+   fmul (of_bits 4611686018427387904) (fdiv c1 (of_bits 4611686018427387904));
+   fmul (of_bits 4613937818241073152) (fdiv c2 (of_bits 4613937818241073152))].
+Proof. intros. reflexivity. Qed.
+Theorem C07_Poly3_roundtrip_lanes : forall c0 c1 c2 c3 : F,
+  evals FOps0 (evals FOps0 [c0; c1; c2; c3] k_Poly3__indefinite) k_Poly4__derivative =
+  [c0;
+   fmul (of_bits 4611686018427387904) (fdiv c1 (of_bits 4611686018427387904));
+   fmul (of_bits 4613937818241073152) (fdiv c2 (of_bits 4613937818241073152));
+   fmul (of_bits 4616189618054758400) (fdiv c3 (of_bits 4616189618054758400))].
+Proof. intros. reflexivity. Qed.
+Theorem C07_Poly4_roundtrip_lanes : forall c0 c1 c2 c3 c4 : F,
+  evals FOps0 (evals FOps0 [c0; c1; c2; c3; c4] k_Poly4__indefinite) k_Poly5__derivative =
+  [c0;
+   fmul (of_bits 4611686018427387904) (fdiv c1 (of_bits 4611686018427387904));
+   fmul (of_bits 4613937818241073152) (fdiv c2 (of_bits 4613937818241073152));
+   fmul (of_bits 4616189618054758400) (fdiv c3 (of_bits 4616189618054758400));
+   fmul (of_bits 4617315517961601024) (fdiv c4 (of_bits 4617315517961601024))].
+Proof. intros. reflexivity. Qed.
+Theorem C07_Poly5_roundtrip_lanes : forall c0 c1 c2 c3 c4 c5 : F,
+  evals FOps0 (evals FOps0 [c0; c1; c2; c3; c4; c5] k_Poly5__indefinite) k_Poly6__derivative =
+  [c0;
+   fmul (of_bits 4611686018427387904) (fdiv c1 (of_bits 4611686018427387904));
+   fmul (of_bits 4613937818241073152) (fdiv c2 (of_bits 4613937818241073152));
+   fmul (of_bits 4616189618054758400) (fdiv c3 (of_bits 4616189618054758400));
+   fmul (of_bits 4617315517961601024) (fdiv c4 (of_bits 4617315517961601024));
+   fmul (of_bits 4618441417868443648) (fdiv c5 (of_bits 4618441417868443648))].
+Proof. intros. reflexivity. Qed.
+Theorem C07_Poly6_roundtrip_lanes : forall c0 c1 c2 c3 c4 c5 c6 : F,
+  evals FOps0 (evals FOps0 [c0; c1; c2; c3; c4; c5; c6] k_Poly6__indefinite) k_Poly7__derivative =
+  [c0;
+   fmul (of_bits 4611686018427387904) (fdiv c1 (of_bits 4611686018427387904));
+   fmul (of_bits 4613937818241073152) (fdiv c2 (of_bits 4613937818241073152));
+   fmul (of_bits 4616189618054758400) (fdiv c3 (of_bits 4616189618054758400));
+   fmul (of_bits 4617315517961601024) (fdiv c4 (of_bits 4617315517961601024));
+   fmul (of_bits 4618441417868443648) (fdiv c5 (of_bits 4618441417868443648));
+   fmul (of_bits 4619567317775286272) (fdiv c6 (of_bits 4619567317775286272))].
+Proof. intros. reflexivity. Qed.
+Theorem C07_Poly7_roundtrip_lanes : forall c0 c1 c2 c3 c4 c5 c6 c7 : F,
+  evals FOps0 (evals FOps0 [c0; c1; c2; c3; c4; c5; c6; c7] k_Poly7__indefinite) k_Poly8__derivative =
+  [c0;
+   fmul (of_bits 4611686018427387904) (fdiv c1 (of_bits 4611686018427387904));
+   fmul (of_bits 4613937818241073152) (fdiv c2 (of_bits 4613937818241073152));
+   fmul (of_bits 4616189618054758400) (fdiv c3 (of_bits 4616189618054758400));
+   fmul (of_bits 4617315517961601024) (fdiv c4 (of_bits 4617315517961601024));
+   fmul (of_bits 4618441417868443648) (fdiv c5 (of_bits 4618441417868443648));
+   fmul (of_bits 4619567317775286272) (fdiv c6 (of_bits 4619567317775286272));
+   fmul (of_bits 4620693217682128896) (fdiv c7 (of_bits 4620693217682128896))].
+Proof. intros. reflexivity. Qed.
+
+(* each such coefficient is within ONE unit in the last place of c_i, for every finite c_i whose quotient by the (finite,
+   non-zero) literal is not subnormal and when nothing overflows *)
+Theorem C07_roundtrip_one_ulp : forall (c n : F), is_finite c = true -> is_finite_strict n = true ->
+  nounder (B2R c / B2R n) -> noover (B2R c / B2R n) -> noover (B2R (fdiv c n) * B2R n) ->
+  Rabs (B2R (fmul n (fdiv c n)) - B2R c) <= ulp radix2 fexp64 (B2R c) /\ is_finite (fmul n (fdiv c n)) = true.
+Proof. intros c n. rewrite (fmul_comm n). apply roundtrip_one_ulp_lit. Qed.
+
+(* the divisors that occur are finite and non-zero *)
+Theorem C07_divisors_ok : forallb (fun b => is_finite_strict (of_bits b))
+  [4611686018427387904; 4613937818241073152; 4616189618054758400; 4617315517961601024; 4618441417868443648; 4619567317775286272; 4620693217682128896]%Z = true.
+Proof. vm_compute. reflexivity. Qed.
+
+(* KNOWN FINDING D4: without the no-underflow hypothesis the one-ulp claim is FALSE for the unchanged code: c = 2^-1073
+   (bits 0x2), divisor 4.0 (the x^3 coefficient of a Poly3): c/4 is half the smallest subnormal and rounds to 0, 4*0 = 0,
+   two units in the last place away from c. *)
+Theorem C07_roundtrip_refuted_when_subnormal :
+  is_finite (of_bits 2) = true /\ is_finite_strict (of_bits 4616189618054758400) = true /\
+  ~ (Rabs (B2R (fmul (of_bits 4616189618054758400) (fdiv (of_bits 2) (of_bits 4616189618054758400))) - B2R (of_bits 2))
+     <= ulp radix2 fexp64 (B2R (of_bits 2))).
+Proof. rewrite (fmul_comm (of_bits 4616189618054758400)). exact roundtrip_subnormal_refuted. Qed.
 
 Example C07_example :
   run_kernel [] [] k_Poly2__integral [4607182418800017408; 4611686018427387904; 4613937818241073152; 4607182418800017408; 4621819117588971520]%Z
